@@ -144,6 +144,19 @@ func c05Scenes(args []string) error {
 			emit(stat3("tight-ball", fmtf(float64(n), e), ball3{v3.Vec{X: 6.5, Y: 6.5, Z: 6.5}, 1.5*math.Sqrt(3) + e*math.Pow(2, float64(n)), bb}, "mco", 6))
 		}
 	}
+	// long thin rods at more than 2^9 cells along each axis (lattice indices beyond 1024 half-cells: anything that
+	// packs or truncates lattice coordinates shows here), both renderers
+	for ax := 0; ax < 3; ax++ {
+		sz := [3]float64{1, 1, 1}
+		sz[ax] = 40
+		rod, _ := sdf.Box3D(v3.Vec{X: sz[0], Y: sz[1], Z: sz[2]}, 0.2)
+		for _, which := range []string{"mco", "mcu"} {
+			emit(stat3("long-rod", fmtf(float64(ax)), rod, which, 520))
+		}
+		if tier() == "thorough" {
+			emit(stat3("long-rod", fmtf(float64(ax)), rod, "mco", 1100))
+		}
+	}
 	reps := 3
 	if tier() == "thorough" {
 		reps = 12
@@ -181,6 +194,17 @@ func c05Scenes(args []string) error {
 
 func c08Scenes(args []string) error {
 	rnd := rand.New(rand.NewSource(seed()))
+	// cell counts at and just below powers of two: the quadtree's root square must still cover the 1 % margin
+	{
+		ci, _ := sdf.Circle2D(1)
+		pl := sdf.Box2D(v2.Vec{X: 3, Y: 1}, 0.2)
+		for _, cells := range []int{32, 64, 127, 128, 255, 256} {
+			for _, which := range []string{"msq", "msu"} {
+				emit(stat2("pow2-circle", fmtf(float64(cells)), ci, which, cells, 0, 0, 0))
+				emit(stat2("pow2-plate", fmtf(float64(cells)), pl, which, cells, 0, 0, 0))
+			}
+		}
+	}
 	// a very deep quadtree (17 levels): a long thin box at more than 2^15 cells
 	{
 		thin := sdf.Box2D(v2.Vec{X: 1000, Y: 1}, 0)
